@@ -129,7 +129,7 @@ def gen_config(rng, tier, profile):
     s['TIME_TO_DEFER_SENDING'] = rng.choice([0, 0, 0.0001])
     s['DYNAMIC_ROUTER'] = False
     s['deep_backlog'] = True
-  if profile == 'c15' and rng.random() < 0.04:
+  if profile == 'c15' and rng.random() < 0.025:
     # an outage builds a backlog that then leaves in one message of a few hundred KB
     s['MAX_QUEUE_SIZE'] = 6000
     s['MAX_DATAPOINTS_PER_MESSAGE'] = 5000
